@@ -268,7 +268,7 @@ impl Campaign for C10 {
     fn runs(&self, tier: Tier) -> u64 {
         match tier {
             Tier::Quick => 12_000 * 8,
-            Tier::Thorough => 4_000_000 * 8,
+            Tier::Thorough => 12_000_000 * 8,
         }
     }
     fn group(&self, _tier: Tier) -> u64 {
@@ -462,7 +462,7 @@ impl Campaign for C17 {
     fn runs(&self, tier: Tier) -> u64 {
         match tier {
             Tier::Quick => 100_000,
-            Tier::Thorough => 40_000_000,
+            Tier::Thorough => 100_000_000,
         }
     }
     fn min_verdict_pct(&self) -> u64 {
